@@ -592,15 +592,35 @@ func checkC08Headers(c c08HdrCase) error {
 		if err := kept.check(); err != nil {
 			return err
 		}
-		// closure
+		// closure; on the second pass the destinations have been used before (a caller that keeps one
+		// header value and refills it message after message)
 		var dp cose.ProtectedHeader
+		var du cose.UnprotectedHeader
+		if pass == 1 {
+			dp = cose.ProtectedHeader{int64(1): cose.AlgorithmES256, "left-over": int64(1), int64(5): []byte{1, 2, 3}}
+			du = cose.UnprotectedHeader{int64(4): []byte("left-over kid"), "left-over": int64(1)}
+			stats.Class("closure-into-used-header-values")
+			hh := cose.Headers{RawProtected: []byte{0x47, 0xa2, 0x01, 0x26, 0x05, 0x42, 0x01, 0x02}, RawUnprotected: []byte{0xa1, 0x04, 0x41, 0x09}}
+			if err := hh.UnmarshalFromRaw(); err != nil {
+				return fmt.Errorf("harness: %v", err)
+			}
+			hh.RawProtected, hh.RawUnprotected = wantP, wantU
+			if err := hh.UnmarshalFromRaw(); err != nil {
+				return finding("closure-decode", "Headers.UnmarshalFromRaw (into a Headers value that held another message's headers) rejects encoder output %x / %x: %v", wantP, wantU, err)
+			}
+			hh.RawProtected, hh.RawUnprotected = nil, nil
+			reP, errP := hh.MarshalProtected()
+			reU, errU := hh.MarshalUnprotected()
+			if errP != nil || errU != nil || !bytes.Equal(reP, wantP) || !bytes.Equal(reU, wantU) {
+				return finding("closure-reencode", "headers decoded by Headers.UnmarshalFromRaw into a used Headers value re-encode differently (err=%v / %v)\nprotected %x -> %x\nunprotected %x -> %x", errP, errU, wantP, reP, wantU, reU)
+			}
+		}
 		if err := dp.UnmarshalCBOR(wantP); err != nil {
 			return finding("closure-decode", "ProtectedHeader.UnmarshalCBOR rejects encoder output %x: %v", wantP, err)
 		}
 		if re, err := dp.MarshalCBOR(); err != nil || !bytes.Equal(re, wantP) {
 			return finding("closure-reencode", "protected header changes on re-encoding (err=%v): %x -> %x", err, wantP, re)
 		}
-		var du cose.UnprotectedHeader
 		if err := du.UnmarshalCBOR(wantU); err != nil {
 			return finding("closure-decode", "UnprotectedHeader.UnmarshalCBOR rejects encoder output %x: %v", wantU, err)
 		}
